@@ -164,6 +164,39 @@ class StopShard(Exception):
     pass
 
 
+class CaseTimeout(BaseException):
+    pass
+
+
+class case_alarm:
+    """SIGALRM-based wall-clock guard around one case (the code under test looping forever must not hang the check)."""
+
+    def __init__(self, seconds: int) -> None:
+        self.seconds = seconds
+
+    def __enter__(self):
+        import signal
+
+        def handler(signum, frame):
+            raise CaseTimeout()
+
+        try:
+            self.old = signal.signal(signal.SIGALRM, handler)
+            signal.alarm(self.seconds)
+            self.armed = True
+        except ValueError:  # not in the main thread
+            self.armed = False
+        return self
+
+    def __exit__(self, *exc):
+        import signal
+
+        if self.armed:
+            signal.alarm(0)
+            signal.signal(signal.SIGALRM, self.old)
+        return False
+
+
 class Ctx:
     MAX_FAIL_PER_BUCKET = 3
     MAX_BUCKETS = 12
@@ -207,8 +240,12 @@ class Ctx:
     def check(self, case: dict, domain: str = "") -> Failure | None:
         note = Note()
         self.res.evaluations += 1
+        limit = int(getattr(self.mod, "CASE_TIMEOUT_S", 120))
         try:
-            f = self.mod.check_case(case, note)
+            with case_alarm(limit):
+                f = self.mod.check_case(case, note)
+        except CaseTimeout:
+            f = Failure("case-timeout", f"check_case did not finish within {limit}s of wall time for case {json.dumps(case, default=str)[:1500]}")
         except HarnessError:
             raise
         except RecursionError as e:
